@@ -70,7 +70,7 @@ def read_ndjson(path):
     return out
 
 
-def run_harness(binp, tag, beh_path, trace_path, timeout=900):
+def run_harness(binp, tag, beh_path, trace_path, timeout=3600):
     """executes a behaviour file; a call that kills the process becomes a `crash`
     event and execution resumes at the next episode (`reset` line)"""
     wal = trace_path + ".wal"
